@@ -31,8 +31,13 @@ def spec_rich(rng, N=None, D=None, datatype='I', log_channels=None, time_channel
             extra.append(['$P%dV' % (c + 1), str(rng.choice([450, 500.5, 650, 700]))])
         if rng.random() < 0.5:
             extra.append(['$P%dS' % (c + 1), 'stain %d' % c])
+    if D >= 3 and N % 2 == 0:
+        # the first channel's label ($P1S) is the NAME of the last channel: names, not labels, identify channels
+        extra = [kv for kv in extra if kv[0] != '$P1S'] + [['$P1S', names[D - 1]]]
     if rng.random() < 0.7:
-        extra += [['$BTIM', '12:00:01'], ['$ETIM', '12:03:0%d' % rng.randrange(10)], ['$DATE', '02-OCT-2015']]
+        # whole seconds, FCS3.1 fractions (hh:mm:ss.cc) and FCS3.0 ticks (hh:mm:ss:tt)
+        frac = ['', '.50', ':30'][(D + N) % 3]
+        extra += [['$BTIM', '12:00:01' + frac], ['$ETIM', '12:03:0%d%s' % (rng.randrange(10), frac)], ['$DATE', '02-OCT-2015']]
     if time_channel or rng.random() < 0.3:
         extra.append(['$TIMESTEP', '0.01'])
     if datatype == 'I':
